@@ -25,7 +25,7 @@ def vmdkCmd (st : St) : List String → String
   | "vmdk.open" :: ids =>
     match vmdkFiles st ids >>= vmdkOpenHandles with
     | .ok (v, sps) =>
-      let desc := sps.map (fun sp => s!"[cap={sp.capacity} gs={sp.grainSize} gt={sp.gtSize} gd={sp.gd.size} k={repr sp.kind} wf={if sp.wfb then 1 else 0}]")
+      let desc := sps.map (fun sp => s!"[cap={sp.capacity} gs={sp.grainSize} gt={sp.gtSize} gd={sp.gd.size} k={repr sp.kind} wf={if sp.wfb then 1 else 0} wfU={if sp.wfbU then 1 else 0}]")
       s!"ok size={v.size} disks={v.disks.size} wf={if sps.all (·.wfb) then 1 else 0} {" ".intercalate desc}"
     | .error e => s!"err {e}"
   | "vmdk.stream" :: align :: nids :: rest =>
